@@ -73,6 +73,21 @@ impl<'c, 'r, C: ZCol> Visitor<C> for V<'c, 'r> {
             }
             ctx.count("bounded_target_draws", 1);
         }
+        // translations accumulate: translate(d) followed by translate(e) is translate(d + e)
+        {
+            let e = Point::new((want.hash() % 23) as i32 - 11, (want.hash() / 23 % 23) as i32 - 11);
+            let xtt = xt.translated(e);
+            let (m3, _, _) = render::<C, D>(&xtt, budget);
+            let mut xmm = x.translated(d);
+            xmm.translate_in_place(e);
+            let (m4, _, _) = render::<C, D>(&xmm, budget);
+            let want2 = m0.shifted(d.x + e.x, d.y + e.y);
+            if !m3.same(&want2) || !m4.same(&want2) {
+                ctx.violation(format!("{}|{}|two-translations-do-not-add-up", kind, thick(desc)), || format!("{} and then by ({},{})", case(), e.x, e.y), || {
+                    format!("translate.translate: first difference {:?}; translate.translate_mut: first difference {:?} (x, y, rendered, original shifted by the sum)", m3.first_diff(&want2), m4.first_diff(&want2))
+                });
+            }
+        }
         // text: next position shifts as well
         if let (Some(a), Some(b)) = (r0, r1) {
             if b != a + d {
